@@ -15,7 +15,7 @@ func checkC07(r *Run) {
 	r.Rule("R2", "falsy set of the predicate: nil, false, \"\", empty template.HTML, nil pointer -- nothing more, nothing less; comparisons only in single-type arms", 6)
 	r.Rule("R3", "branch selection: main block only on the truthy edge and returned at once; else-ifs visited by one ascending range, condition and block of the same element, first truthy returns; else block only after the loop", 4)
 	truthyUseRule(r, "R1")
-	falsySetRule(r, "R2")
+	falsySetRuleSSA(r, "R2")
 	branchSelectionRule(r, "R3")
 }
 
@@ -32,7 +32,7 @@ func valueVars(w *World, f *FuncInfo) map[types.Object]string {
 			return true
 		}
 		call, ok := as.Rhs[0].(*ast.CallExpr)
-		if !ok || evalExpr == nil || calleeOf(info, call) != evalExpr.Obj || len(call.Args) != 1 {
+		if !ok || evalExpr == nil || !w.isValueEvalCall(info, call) {
 			return true
 		}
 		if o := objOf(info, as.Lhs[0]); o != nil {
@@ -453,6 +453,7 @@ func branchSelectionRule(r *Run, rule string) {
 		r.Lost(rule, "head and else-chain evaluators of the if expression")
 		return
 	}
+	conditionToleranceRule(r, rule, []*FuncInfo{head, chain})
 	// head: `if truthy(con) { return evalBlock(node.Block) }` then `return chain(node)`
 	{
 		f := head
@@ -609,6 +610,71 @@ func branchSelectionRule(r *Run, rule string) {
 				}
 			}
 		}
+	}
+}
+
+// conditionToleranceRule: unknown identifiers are falsy -- every evaluation of
+// a `.Condition` in the if / else-if evaluators either goes through an operand
+// wrapper that swallows the typed unknown-identifier error, or is followed by
+// that tolerance on its own error variable.
+func conditionToleranceRule(r *Run, rule string, fns []*FuncInfo) {
+	w := r.W
+	wrappers := w.operandWrappers()
+	seen := map[*FuncInfo]bool{}
+	n := 0
+	for _, f := range fns {
+		if f == nil || seen[f] {
+			continue
+		}
+		seen[f] = true
+		info := f.Pkg.TypesInfo
+		inspectBody(f.Decl.Body, true, func(nd ast.Node) bool {
+			blk, ok := nd.(*ast.BlockStmt)
+			if !ok {
+				return true
+			}
+			for i, st := range blk.List {
+				as, ok := st.(*ast.AssignStmt)
+				if !ok || len(as.Rhs) != 1 || len(as.Lhs) != 2 {
+					continue
+				}
+				c, ok := as.Rhs[0].(*ast.CallExpr)
+				if !ok || !w.isValueEvalCall(info, c) {
+					continue
+				}
+				if _, fld := fieldOf(info, c.Args[0]); fld == nil || fld.Name() != "Condition" {
+					continue
+				}
+				n++
+				con := "condition " + short(w.Fset, c.Args[0]) + " tolerates an unknown identifier"
+				if wrappers[calleeOf(info, c)] {
+					r.Ok(rule, f.Name(), con, w.Pos(c.Pos()), "evaluated through an operand wrapper that swallows *ErrUnknownIdentifier")
+					continue
+				}
+				errVar := objOf(info, as.Lhs[1])
+				tol := false
+				for _, nx := range blk.List[i+1:] {
+					ifs, ok := nx.(*ast.IfStmt)
+					if !ok {
+						break
+					}
+					if unknownToleranceIf(info, ifs) == errVar && errVar != nil {
+						tol = true
+					}
+					break
+				}
+				if tol {
+					r.Ok(rule, f.Name(), con, w.Pos(c.Pos()), "the error branch returns only when the error is not *ErrUnknownIdentifier")
+				} else {
+					r.Bad(rule, f.Name(), con, w.Pos(c.Pos()),
+						"an unknown identifier used as a condition must count as falsy: the error of this evaluation must be let through only when it is not *ErrUnknownIdentifier")
+				}
+			}
+			return true
+		})
+	}
+	if n < 2 {
+		r.Lost(rule, "condition evaluations of the if and else-if evaluators")
 	}
 }
 
